@@ -47,6 +47,3 @@ Definition entry_code (sub : Z) (args : list Z) : list Z :=
       else entry sub args
   | _ => entry sub args
   end.
-
-Example anchor_ring_code : entry_code 0 [0; 3; -1; 0;5; 0;6; 1;0; 7;5; 8;9; 3;0; 6;0; 10;0] = [1; 1; 1; 5; 1; 2; 5; 7; 0; 1; 6; 9; 0; 0; 0].
-Proof. vm_compute. reflexivity. Qed.
